@@ -1,8 +1,245 @@
-//! C06 — stub, to be written.
+//! C06: selection, restriction and picking have their relational meaning.
+//!
+//! Case kinds (fields: Bdd as `|v,l,h|…|`, literal list `x:b,x:b,…` in the order given to the library
+//! (`~` = empty), variable list `3,1,1,0` (`~` = empty), coin flips as a bit string):
+//!   C06.coin    flips                => what `gen_bool(0.5)` answered on a `CoinRng` fed with the flips
+//!   C06.vsel    bdd x b              => var_select
+//!   C06.select  bdd lits             => select
+//!   C06.vres    bdd x b              => var_restrict
+//!   C06.restrict bdd lits            => restrict
+//!   C06.vpick   bdd x                => var_pick
+//!   C06.vpickr  bdd x flips          => var_pick_random, number of coins drawn
+//!   C06.pick    bdd vars             => pick
+//!   C06.pickr   bdd vars flips       => pick_random, number of coins drawn
+//!   C06.vex     bdd x                => var_exists   (used inside pick; shared with Model/Relation)
+//!   C06.vall    bdd x                => var_for_all
 #[path = "../common.rs"]
 mod common;
+use biodivine_lib_bdd::*;
 use common::*;
+use rand::Rng;
 
-pub fn run(key: &str, _a: &[String], _out: &mut Out) { panic!("unknown key {}", key) }
-pub fn gen(_tier: Tier, _rng: &mut Rng64, _out: &mut Out) {}
+fn s(x: &str) -> String { x.to_string() }
+
+fn parse_lits(t: &str) -> Vec<(BddVariable, bool)> {
+    if t == "~" { return vec![]; }
+    t.split(',').map(|p| {
+        let mut it = p.split(':');
+        let x: usize = it.next().unwrap().parse().unwrap();
+        let b = it.next().unwrap() == "1";
+        (var(x), b)
+    }).collect()
+}
+fn fmt_lits(l: &[(usize, bool)]) -> String {
+    if l.is_empty() { return s("~"); }
+    l.iter().map(|(x, b)| format!("{}:{}", x, if *b { 1 } else { 0 })).collect::<Vec<_>>().join(",")
+}
+fn parse_vars(t: &str) -> Vec<BddVariable> {
+    if t == "~" { return vec![]; }
+    t.split(',').map(|p| var(p.parse().unwrap())).collect()
+}
+fn parse_flips(t: &str) -> Vec<bool> {
+    if t == "~" { return vec![]; }
+    t.chars().map(|c| c == '1').collect()
+}
+
+/// Executes one case from its textual inputs and writes the observation.
+pub fn run(key: &str, a: &[String], out: &mut Out) {
+    match key {
+        "C06.coin" => {
+            let flips = parse_flips(&a[0]);
+            let mut rng = CoinRng::new(flips.clone());
+            let got: Vec<bool> = flips.iter().map(|_| rng.gen_bool(0.5)).collect();
+            out.case(key, a, &[fmt_bools(&got), rng.pos.to_string()]);
+        }
+        "C06.vsel" => {
+            let b = Bdd::from_string(&a[0]);
+            let (x, v) = (var(a[1].parse().unwrap()), a[2] == "1");
+            out.case(key, a, &[fmt_res_bdd(&catch(|| b.var_select(x, v)))]);
+        }
+        "C06.select" => {
+            let b = Bdd::from_string(&a[0]);
+            let lits = parse_lits(&a[1]);
+            out.case(key, a, &[fmt_res_bdd(&catch(|| b.select(&lits)))]);
+        }
+        "C06.vres" => {
+            let b = Bdd::from_string(&a[0]);
+            let (x, v) = (var(a[1].parse().unwrap()), a[2] == "1");
+            out.case(key, a, &[fmt_res_bdd(&catch(|| b.var_restrict(x, v)))]);
+        }
+        "C06.restrict" => {
+            let b = Bdd::from_string(&a[0]);
+            let lits = parse_lits(&a[1]);
+            out.case(key, a, &[fmt_res_bdd(&catch(|| b.restrict(&lits)))]);
+        }
+        "C06.vpick" => {
+            let b = Bdd::from_string(&a[0]);
+            let x = var(a[1].parse().unwrap());
+            out.case(key, a, &[fmt_res_bdd(&catch(|| b.var_pick(x)))]);
+        }
+        "C06.vpickr" => {
+            let b = Bdd::from_string(&a[0]);
+            let x = var(a[1].parse().unwrap());
+            let mut rng = CoinRng::new(parse_flips(&a[2]));
+            let res = catch(|| b.var_pick_random(x, &mut rng));
+            out.case(key, a, &[fmt_res_bdd(&res), rng.pos.to_string()]);
+        }
+        "C06.pick" => {
+            let b = Bdd::from_string(&a[0]);
+            let vars = parse_vars(&a[1]);
+            out.case(key, a, &[fmt_res_bdd(&catch(|| b.pick(&vars)))]);
+        }
+        "C06.pickr" => {
+            let b = Bdd::from_string(&a[0]);
+            let vars = parse_vars(&a[1]);
+            let mut rng = CoinRng::new(parse_flips(&a[2]));
+            let res = catch(|| b.pick_random(&vars, &mut rng));
+            out.case(key, a, &[fmt_res_bdd(&res), rng.pos.to_string()]);
+        }
+        "C06.vex" => {
+            let b = Bdd::from_string(&a[0]);
+            let x = var(a[1].parse().unwrap());
+            out.case(key, a, &[fmt_res_bdd(&catch(|| b.var_exists(x)))]);
+        }
+        "C06.vall" => {
+            let b = Bdd::from_string(&a[0]);
+            let x = var(a[1].parse().unwrap());
+            out.case(key, a, &[fmt_res_bdd(&catch(|| b.var_for_all(x)))]);
+        }
+        _ => panic!("unknown key {}", key),
+    }
+}
+
+/// all partial assignments over n variables as ascending literal lists (3^n of them)
+fn all_partials(n: usize) -> Vec<Vec<(usize, bool)>> {
+    let mut res = vec![vec![]];
+    for x in 0..n {
+        let mut next = vec![];
+        for p in &res {
+            next.push(p.clone());
+            let mut q = p.clone(); q.push((x, false)); next.push(q);
+            let mut q = p.clone(); q.push((x, true)); next.push(q);
+        }
+        res = next;
+    }
+    res
+}
+fn shuffle<T>(rng: &mut Rng64, v: &mut Vec<T>) {
+    for i in (1..v.len()).rev() { let j = rng.below(i as u64 + 1) as usize; v.swap(i, j); }
+}
+/// the same partial assignment as the library sees it after `from_values`, presented differently: another
+/// order, and overwritten earlier literals on the same variables (the LAST one wins)
+fn disguise(rng: &mut Rng64, lits: &[(usize, bool)]) -> Vec<(usize, bool)> {
+    let mut v: Vec<(usize, bool)> = lits.to_vec();
+    shuffle(rng, &mut v);
+    let mut pre: Vec<(usize, bool)> = vec![];
+    for (x, b) in lits { if rng.chance(1, 2) { pre.push((*x, if rng.bool() { *b } else { !*b })); } }
+    shuffle(rng, &mut pre);
+    pre.extend(v);
+    pre
+}
+fn all_subsets(n: usize) -> Vec<Vec<usize>> {
+    (0..(1usize << n)).map(|m| (0..n).filter(|k| (m >> k) & 1 == 1).collect()).collect()
+}
+fn random_flips(rng: &mut Rng64, k: usize) -> Vec<bool> { (0..k).map(|_| rng.bool()).collect() }
+
+fn ops_for(b: &str, n: usize, partials: &[Vec<(usize, bool)>], subsets: &[Vec<usize>], rng: &mut Rng64, out: &mut Out,
+           p_partial: (u64, u64), p_subset: (u64, u64), all_flips: bool) {
+    let bs = s(b);
+    for x in 0..n {
+        for v in ["0", "1"] {
+            run("C06.vsel", &[bs.clone(), x.to_string(), s(v)], out);
+            run("C06.vres", &[bs.clone(), x.to_string(), s(v)], out);
+            run("C06.vpickr", &[bs.clone(), x.to_string(), s(v)], out);
+        }
+        run("C06.vpick", &[bs.clone(), x.to_string()], out);
+        run("C06.vex", &[bs.clone(), x.to_string()], out);
+        run("C06.vall", &[bs.clone(), x.to_string()], out);
+    }
+    for p in partials {
+        if !rng.chance(p_partial.0, p_partial.1) { continue; }
+        run("C06.select", &[bs.clone(), fmt_lits(p)], out);
+        run("C06.restrict", &[bs.clone(), fmt_lits(p)], out);
+        if !p.is_empty() {
+            let mut q = p.clone(); q.reverse();
+            run("C06.select", &[bs.clone(), fmt_lits(&q)], out);
+            run("C06.restrict", &[bs.clone(), fmt_lits(&q)], out);
+            let d = disguise(rng, p);
+            run("C06.select", &[bs.clone(), fmt_lits(&d)], out);
+            let d = disguise(rng, p);
+            run("C06.restrict", &[bs.clone(), fmt_lits(&d)], out);
+        }
+    }
+    for vs in subsets {
+        if !rng.chance(p_subset.0, p_subset.1) { continue; }
+        let mut orders: Vec<Vec<usize>> = vec![vs.clone()];
+        if vs.len() > 1 {
+            let mut r = vs.clone(); r.reverse(); orders.push(r);
+            let mut r = vs.clone(); shuffle(rng, &mut r); orders.push(r);
+        }
+        for o in &orders {
+            run("C06.pick", &[bs.clone(), fmt_usizes(o)], out);
+        }
+        let o = rng.pick(&orders).clone();
+        if all_flips {
+            for m in 0..(1usize << vs.len()) {
+                let fl: Vec<bool> = (0..vs.len()).map(|k| (m >> k) & 1 == 1).collect();
+                run("C06.pickr", &[bs.clone(), fmt_usizes(&o), fmt_bools(&fl)], out);
+            }
+        } else {
+            for _ in 0..2 {
+                let fl = random_flips(rng, vs.len());
+                run("C06.pickr", &[bs.clone(), fmt_usizes(&o), fmt_bools(&fl)], out);
+            }
+        }
+    }
+}
+
+pub fn gen(tier: Tier, rng: &mut Rng64, out: &mut Out) {
+    let thorough = tier == Tier::Thorough;
+    // the coin convention of `CoinRng` is re-validated on every run
+    for t in ["0", "1", "01", "10", "0011010111", "1111100000"] { run("C06.coin", &[s(t)], out); }
+    // --- exhaustive small universes: every function over n <= 3 variables
+    for n in 0..=3usize {
+        let count = 1u64 << (1u64 << n);
+        let partials = all_partials(n);
+        let subsets = all_subsets(n);
+        for t in 0..count {
+            let b = fmt_bdd(&bdd_of_tt(n, &tt_from_index(n, t)));
+            let full = thorough || n < 3;
+            ops_for(&b, n, &partials, &subsets, rng, out,
+                    if full { (1, 1) } else { (1, 4) }, if full { (1, 1) } else { (1, 2) }, full);
+        }
+    }
+    // --- random larger operands (shared sub-diagrams, skipped levels)
+    let rounds = if thorough { 30000 } else { 700 };
+    for _ in 0..rounds {
+        let n = 4 + rng.below(3) as usize;
+        let bdd = random_bdd(rng, n);
+        let b = fmt_bdd(&bdd);
+        // a handful of random partial assignments and subsets
+        for _ in 0..3 {
+            let mut p: Vec<(usize, bool)> = vec![];
+            for x in 0..n { if rng.chance(2, 5) { p.push((x, rng.bool())); } }
+            let d = disguise(rng, &p);
+            run("C06.select", &[b.clone(), fmt_lits(&d)], out);
+            let d = disguise(rng, &p);
+            run("C06.restrict", &[b.clone(), fmt_lits(&d)], out);
+            let mut vs: Vec<usize> = (0..n).filter(|_| rng.chance(2, 5)).collect();
+            shuffle(rng, &mut vs);
+            run("C06.pick", &[b.clone(), fmt_usizes(&vs)], out);
+            let fl = random_flips(rng, vs.len());
+            run("C06.pickr", &[b.clone(), fmt_usizes(&vs), fmt_bools(&fl)], out);
+        }
+        let x = rng.below(n as u64) as usize;
+        let v = if rng.bool() { "1" } else { "0" };
+        run("C06.vsel", &[b.clone(), x.to_string(), s(v)], out);
+        run("C06.vres", &[b.clone(), x.to_string(), s(v)], out);
+        run("C06.vpick", &[b.clone(), x.to_string()], out);
+        run("C06.vpickr", &[b.clone(), x.to_string(), s(v)], out);
+        run("C06.vex", &[b.clone(), x.to_string()], out);
+        run("C06.vall", &[b.clone(), x.to_string()], out);
+    }
+}
+
 fn main() { harness_main(gen, run) }
